@@ -95,7 +95,19 @@ func (ctx *Context) Parse(value string) error {
 	// 设置错误消息语言
 	SetParseErrorLanguage(ctx.Config.ParseErrorLanguage)
 	verifYield("parse.lang")
-	_, err := p.parse(nil)
+	_, err := func() (val any, err error) {
+		defer func() {
+			// 解析算力(ParseExprLimit)耗尽时 parser 以 panic 退出，这里转为普通错误
+			if r := recover(); r != nil {
+				if r == errMaxExprCnt {
+					err = errors.New("解析算力上限: " + errMaxExprCnt.Error())
+					return
+				}
+				panic(r)
+			}
+		}()
+		return p.parse(nil)
+	}()
 	if err != nil {
 		ctx.Error = err
 		verifParsed(ctx, value, err)
